@@ -71,13 +71,13 @@ type caseCfg struct {
 }
 
 type replay struct {
-	Case     int       `json:"case"`
-	Seed     uint64    `json:"seed"`
-	Cfg      caseCfg   `json:"cfg"`
-	Arrivals []arrival `json:"arrivals"`
+	Case     int         `json:"case"`
+	Seed     uint64      `json:"seed"`
+	Cfg      caseCfg     `json:"cfg"`
+	Arrivals []arrival   `json:"arrivals"`
 	Rounds   [][]arrival `json:"rounds,omitempty"`
-	Note     string    `json:"note,omitempty"`
-	Deaths   []string  `json:"convention_verdicts,omitempty"`
+	Note     string      `json:"note,omitempty"`
+	Deaths   []string    `json:"convention_verdicts,omitempty"`
 }
 
 var base = time.Date(2026, 3, 1, 12, 0, 0, 0, time.UTC) // unix seconds divisible by 60
@@ -514,7 +514,7 @@ func fixedScenarios() []replay {
 		Arrivals: []arrival{{OffsetNs: 0}, {OffsetNs: s}}})
 	// (c) window size 3 s -> 2 s; new-size window (8,10] straddles the old grid instant 9
 	sc = append(sc, replay{Case: -3, Note: "fixed: window 3s->2s between requests",
-		Cfg: caseCfg{Change: true, Remedies: []remedyCfg{{Name: "rem0", Allowed: 3, WindowS: 3}}},
+		Cfg:      caseCfg{Change: true, Remedies: []remedyCfg{{Name: "rem0", Allowed: 3, WindowS: 3}}},
 		Arrivals: []arrival{{OffsetNs: 7 * s}, {OffsetNs: 7*s + s/2, SetWindowS: 2}, {OffsetNs: 8*s + s/2}, {OffsetNs: 9*s + s/2}, {OffsetNs: 9*s + s/2}, {OffsetNs: 9*s + s/2}}})
 	return sc
 }
